@@ -232,7 +232,9 @@ def eval_override(a, b, content=False):
     if b != BLANK:
         cells.append(wbk.Cell('S', 'B', '1', wbk.dec(b)))
     if cells:
-        ex.set_cells(cells)
+        o_set = wbk.outcome(lambda: ex.set_cells(cells))
+        if o_set[0] != 'value':
+            return {op: o_set for op in OPS}, {op: o_set for op in OPS}
     ab, ba = {}, {}
     for i, op in enumerate(OPS):
         ab[op] = tr.get('S', wbk.get_column_letter(3 + i), '1', ex)
